@@ -42,7 +42,7 @@ REMARK = {
 "C02": """Besides the C01 engine's "valid Go rejected" verdict, C02 owns the statement level. (1) **Flow bodies**: every *valid* function body enumerated from Flow.tla (validity = no missing return, no unused / duplicate label; cross-checked with go/types) is built in one package per batch, the package is written, and each emitted function must have the same *typed canonical tree* (astcanon.go: positions, comments, redundant parentheses, `else { if }` vs `else if`, grouped field names, empty result lists and import names removed; every identifier annotated with universe / package / member / n-th local as go/types resolves it) as an independent rendering of the same operations. Flow.tla gained the action `FGoto` (forward goto: `NewLabel` + `Goto` now, `Label` later in an enclosing block, tracked by block paths of frame ids) for this. (2) **Headers.tla** transcribes the Go specification's composite-literal ambiguity rule (`Exposed`, with the precedence refinement that a unary or binary operand of a primary expression is necessarily parenthesised) and places every expression tree of a grammar (8 bases incl. a literal of an instantiated generic type, chains of selectors / method calls, 17 finals) in 14 statement contexts; `go/parser` on the text *without* protective parentheses validates `Ambiguous` on every point. The builder must accept each placement and emit text that parses back to the same tree.""",
 "C03": """Same points as C01; additionally the lookups of Select.tla are replayed with `selectForC03`: the result type of `MemberVal` / method expressions and the object passed to `Recorder.Member` must be the member Go selects.""",
 "C04": """Same points; compared are constness and the exact constant value (go/constant `ExactString`), also for constant declarations (`Package.Types.Scope()` entries vs go/types on the written package).""",
-"C05": """GoTypes.tla carries symbolic constants 2^e+d (TLC integers are 32-bit) so that representability is exact up to 2^1024. TLC checks meta-invariants on the grid (assignability implies convertibility, identical types are mutually assignable, comparison symmetric, ...). Every grid point is asked of go/types (S = T) and of the real `AssignableTo / AssignableConv / ComparableTo / ConvertibleTo / Default` with both argument orders. Root-cause predicates (`c05RootCause`) attribute a failing point to one of six known classes; anything else is a violation.""",
+"C05": """GoTypes.tla carries symbolic constants 2^e+d (TLC integers are 32-bit) so that representability is exact up to 2^1024. TLC checks meta-invariants on the grid (assignability implies convertibility, identical types are mutually assignable, comparison symmetric, ...). Every grid point is asked of go/types (S = T) and of the real `AssignableTo / AssignableConv / ComparableTo / ConvertibleTo / Default` with both argument orders. Root-cause predicates (`c05RootCause`) attribute a failing point to one of six known classes; anything else is a violation. Every point is asked a second time with alias types (`type AV = V`): the alias-nil defect repaired in 3ba0e5d (found by C11) would have been reported as `alias-changes-verdict/ComparableTo...` - checked by reverting the fix.""",
 "C06": """The model is a *step machine* mirroring `matchFuncCall`: Backup, Enter (arity + inference on the current arguments, bind stored), Step (one argument against one parameter; rewrites `init0/init1` through `T_Init__k`, `inst` for a generic function value, `narrow` for a single-candidate overloaded value - the narrowing also happens when the match fails), Fail (restore), Succeed. Invariants FirstApplicable / NoResidue / ResultType compare the machine with the functional definition; `Restore = FALSE` must violate them (run on every invocation). Named deviations of the implementation are parameters of the functional definition (`d = TRUE`), so that a failing point that equals the deviation's prediction is attributed to KF-C06-1..3 and everything else is a violation. A hand mutant (dropping `restoreArgs` in the function loop) is caught.""",
 "C07": """The first version of the fragment agreed with go/types on all 21 184 points at the first run; three later disagreements refined the model (explicit type arguments are never re-bound to a defined type; a bare unary/`StarExpr` etc. are not part of it). The replay found the variadic-adapter defect at once (fixed, 0deb63f). Function values (`InferFV`: parameters *and* results of the generic function unified exactly with the expected function type), `f(xs...)` calls and the type-as-parameter realisation (`XGox_` functions called as `F(T1, args..)`) were added after the seeded changes for C07 were missed; they exposed two more defects (183f873, b42d3c6).""",
 "C08": """Select.tla was validated against `types.LookupFieldOrMethod` on every lookup (S = T). Replayed: `MemberVal`, `MemberRef`, method expressions `(T).m` / `(*T).m`, with addressable / non-addressable / pointer operands.""",
